@@ -28,6 +28,9 @@ THEOREMS = {
     )],
 }
 
+# Known defect of engine.go (decided by the coordinator): `Stop` is not atomic with the check-then-call of the loop.
+LATE_STOP_SIG = "C20/stop-completes-between-check-and-call-one-more-call"
+
 QUICK_RUNS = 200
 THOROUGH_RUNS = 5000
 THOROUGH_PROCS = 4          # harness processes (each runs up to 64 engines concurrently)
@@ -91,6 +94,29 @@ def _to_failures(summary):
     return out
 
 
+def _late_stop_failure(witness, sample, count):
+    """The one failure for the late-Stop defect: a concrete input on the real Engine (config + readings + where Stop
+    is called), emitted at most once per check, with the number of occurrences seen by this check in the detail."""
+    src = witness if witness is not None else sample
+    case = src.get("case")
+    outcome = src.get("outcome") or {}
+    k = (case or {}).get("stop_k")
+    detail = (f"Stop() completing after the loop's check of `started` but before the call does not prevent that call: "
+              f"with timer={case.get('timer_ns')}ns occurrences={case.get('occurrences')} skipped={case.get('skipped')} and "
+              f"readings {outcome.get('served')}, Stop() was called (and returned) from inside watch.Now() call #{k} — the "
+              f"reading of the occurrence whose check had just passed — and function({', '.join(map(str, (outcome.get('stamps') or [])[-1:]))}) "
+              f"was still invoked afterwards ({outcome.get('calls_begun_after_stop')} call begun after Stop; never more than one: "
+              f"C20_stop_late_bound is checked on every run). Occurrences in this check: {count} "
+              f"(fixed witness + every generated run whose Stop landed in that window). Lean: Clock.C20_stop_counterexample.")
+    return vlib.failure("prop", LATE_STOP_SIG, detail,
+                        {"tool": TOOL, "case": case, "readings_served": outcome.get("served"),
+                         "stamps": outcome.get("stamps"),
+                         "stop_placement": f"Stop() called from inside watch.Now() call #{k} (0 = initialTime); it sets started=false "
+                                           f"after check #{(k or 1) - 1} read true and before engine.function is entered",
+                         "calls_begun_after_stop": outcome.get("calls_begun_after_stop"), "model": src.get("model"),
+                         "theorem": "Clock.C20_stop_counterexample"}, True)
+
+
 def _build(prop, failures, extra):
     ok, binary, blog = vlib.go_build(TOOL)
     driver = vlib.lean_exe(PKG, DRIVER)
@@ -123,6 +149,9 @@ def run(ctx):
     wsum, why = _run_harness(binary, driver, ["--witness"], timeout=120)
     witnesses = (wsum or {}).get("witnesses") or [{"name": "witness-run", "theorem": "", "reproduced": False, "detail": why}]
     wit_ok = all(w.get("reproduced") for w in witnesses)
+    late_witness = next((w for w in witnesses if w.get("name") == "late-stop" and w.get("reproduced")), None)
+    for f in _to_failures(wsum or {}):            # anything stronger than the known window (C20/stop-ignored/...)
+        failures.append(f)
     extra.append({"name": "witnesses of Clock.Props (*_counterexample, *_not_strict, degenerate configurations) reproduce "
                           "on the real Engine (False = the code no longer shows that behaviour: re-state the theorems)",
                   "ok": wit_ok})
@@ -144,17 +173,21 @@ def run(ctx):
         results = [_run_harness(binary, driver, ["--seed", ctx.seed, "--runs", QUICK_RUNS], 300)]
 
     corr = {"evaluations": 0, "distinct_nontrivial": 0, "rule": "", "samples": [], "engine_runs": 0,
-            "prim_evaluations": 0, "traces_validated_against_impl": 0, "realtime_retries": 0, "hist": {},
+            "prim_evaluations": 0, "traces_validated_against_impl": 0, "realtime_retries": 0, "late_stop_calls": 0,
+            "hist": {},
             "witnesses": witnesses, "worker_seeds": []}
     corr_ok = True
     seen = set()
+    late_sample = None
     for summary, why in results:
         if summary is None:
             corr_ok = False
             failures.append(vlib.failure("diff", f"{prop}/harness-crash/{TOOL}", why, {"why": why}, False))
             continue
+        if late_sample is None:
+            late_sample = summary.get("late_stop_sample")
         for k in ("evaluations", "distinct_nontrivial", "engine_runs", "prim_evaluations",
-                  "traces_validated_against_impl", "realtime_retries"):
+                  "traces_validated_against_impl", "realtime_retries", "late_stop_calls"):
             corr[k] += summary.get(k, 0)      # distinct: per process, seeds differ
         corr["rule"] = summary["rule"]
         corr["worker_seeds"].append(summary["seed"])
@@ -172,12 +205,16 @@ def run(ctx):
         corr["samples"] = ["(no non-trivial run)"]
     extra.append({"name": f"correspondence {TOOL} (real Engine vs Clock.Model on the readings served) + C20 clauses "
                           "evaluated on the implementation's stamps", "ok": corr_ok})
+    # the known late-Stop defect: one failure per check (fixed witness first, so it is emitted deterministically)
+    late_count = corr["late_stop_calls"] + (1 if late_witness is not None else 0)
+    if late_count > 0:
+        failures.append(_late_stop_failure(late_witness, late_sample, late_count))
     ctx.log(f"{TOOL}: {corr['engine_runs']} engine runs, {corr['prim_evaluations']} Truncate/Round evaluations, "
             f"{corr['distinct_nontrivial']} non-trivial, {len(failures)} failure(s)")
     late = corr["hist"].get("calls_begun_after_stop", {})
-    notes = ("Reported, not failing: (a) a Stop landing between the check of `started` and the call lets that one call "
-             "through (C20_stop_counterexample; calls begun after Stop per run: " + json.dumps(late, sort_keys=True) +
-             "); (b) stamps repeat when two readings round to the same boundary (C20_monotone_not_strict; "
+    notes = ("(a) FAILURE " + LATE_STOP_SIG + ": a Stop completing between the check of `started` and the call lets that one "
+             "call through (C20_stop_counterexample; calls begun after Stop per run: " + json.dumps(late, sort_keys=True) +
+             "); reported, not failing: (b) stamps repeat when two readings round to the same boundary (C20_monotone_not_strict; "
              "repeated stamps per run: " + json.dumps(corr["hist"].get("repeated_stamps", {}), sort_keys=True) +
              "); (c) occurrences <= 0 or skipped >= occurrences: the loop never stamps and never observes Stop; "
              "occurrences > timer_ns: Ticker.Reset(0) panics (witnesses above).")
@@ -208,6 +245,14 @@ def replay(ctx, body):
         return failures
     path = ctx.work / "case.json"
     path.write_text(json.dumps({"case": payload["case"]}))
+    if body.get("signature") == LATE_STOP_SIG:
+        summary, why = _run_harness(binary, driver, ["--seed", body.get("seed", 0), "--replay", path], timeout=300)
+        if summary is None:
+            return [vlib.failure("diff", f"{prop}/harness-crash/{TOOL}", why, {}, False)]
+        failures = _to_failures(summary)
+        if summary.get("late_stop_calls", 0) > 0:
+            failures.append(_late_stop_failure(None, summary["late_stop_sample"], summary["late_stop_calls"]))
+        return failures
     # scheduling-dependent cases (async stop, realtime) are repeated
     reps = 5 if payload["case"].get("stop_mode") == "async" or payload["case"].get("kind") == "realtime" else 1
     for _ in range(reps):
